@@ -4,6 +4,7 @@ import types
 
 from engine import oracles
 from engine.runner import Ob
+from props import common
 
 LEVEL = "model_checking"
 EXPLANATION = (
@@ -158,7 +159,7 @@ def replace_ob(host, field):
 
 _RT_SCRIPT = r'''
 import sys, json
-sys.path.insert(0, "/repo")
+sys.path.insert(0, "@REPO@")
 import xdis
 from xdis.codetype import codeType2Portable, portableCodeType
 def loop(n):
@@ -214,13 +215,13 @@ sys.stdout.write(json.dumps(bad))
 
 def real_ob(host):
     def q():
-        bad = oracles.run_in(host, _RT_SCRIPT.replace('-S', ''), None)
+        bad = oracles.run_in(host, _RT_SCRIPT.replace('@REPO@', common.REPO), None)
         if bad:
             return "refuted", "%d mismatches" % len(bad), {"first": "|".join(str(x) for x in bad[0])}, 0, 0.0
         return "confirmed", "9 code objects x 2 passes", None, 0, 0.0
 
     def replay(first):
-        bad = oracles.run_in(host, _RT_SCRIPT, None)
+        bad = oracles.run_in(host, _RT_SCRIPT.replace('@REPO@', common.REPO), None)
         if not bad:
             return None
         b = bad[0]
